@@ -51,7 +51,7 @@ def model_specs(draw, tier):
         terms.append({'kind': kind, 'a': [draw(st.integers(0, 10 ** 4)) for _ in range(6)],
                       'strength': draw(st.sampled_from(['int', 'float', 'complex', 'array', 'npint'])), 'plus_hc': draw(st.booleans())})
     return {'lat': lat, 'bc': bc, 'order': order, 'perm_seed': draw(st.integers(0, 999)), 'cfg': cfg, 'terms': terms,
-            'explicit_plus_hc': draw(st.booleans()), 'reps': draw(st.integers(0, 10 ** 4))}
+            'explicit_plus_hc': draw(st.booleans()), 'reps': draw(st.integers(0, 10 ** 4)), 'irregular': draw(st.integers(0, 3)) == 0}
 
 
 def build_lattice(spec, site):
@@ -64,6 +64,12 @@ def build_lattice(spec, site):
     if order == 'perm':
         rng = np.random.default_rng(spec['perm_seed'])
         lat.order = lat.order[rng.permutation(lat.N_sites)]
+    if spec.get('irregular') and lat.N_sites >= 4:
+        # the same lattice with one or two sites removed (IrregularLattice keeps the order of the remaining sites)
+        rng = np.random.default_rng(spec['perm_seed'] + 1)
+        k = 1 + int(rng.integers(0, 2))
+        rem = lat.order[rng.permutation(lat.N_sites)[:k]]
+        lat = lattice.IrregularLattice(lat, remove=[list(map(int, r)) for r in rem])
     return lat
 
 
@@ -141,6 +147,8 @@ def run_model(spec):
                                     strength=sk, **tags)
                 require(np.array_equal(np.asarray(s_arg), s_before), 'strength-argument-mutated', 'add_onsite changed the strength array passed by the caller', kind=kind, **tags)
                 for x in itertools.product(*[range(L) for L in lat.Ls]):
+                    if tuple(x) + (u,) not in lat2mps:
+                        continue  # removed site of an IrregularLattice
                     i = lat2mps[tuple(x) + (u,)]
                     add_ref(M.dense_op(sites, {i: M.op_matrix(sites[i], name)}), s[tuple(x)])
             elif kind == 'coupling':
